@@ -5,6 +5,7 @@ package sched
 import (
 	"fmt"
 	"reflect"
+	"strings"
 	"unsafe"
 )
 
@@ -12,6 +13,7 @@ import (
 // channel value (which is never used for communication while a scheduler is
 // active).
 type chanModel struct {
+	seq    int
 	key    unsafe.Pointer
 	cap    int
 	buf    []any
@@ -41,10 +43,22 @@ func (s *Sched) model(ch any) *chanModel {
 	k := v.UnsafePointer()
 	m := s.chans[k]
 	if m == nil {
-		m = &chanModel{key: k, cap: v.Cap(), name: fmt.Sprintf("ch%d<%s>", len(s.chans), v.Type().Elem())}
+		m = &chanModel{seq: len(s.chans), key: k, cap: v.Cap(), name: fmt.Sprintf("ch%d<%s>", len(s.chans), v.Type().Elem())}
 		s.chans[k] = m
 	}
 	return m
+}
+
+func (s *Sched) chanKey() string {
+	ms := make([]*chanModel, len(s.chans))
+	for _, m := range s.chans {
+		ms[m.seq] = m
+	}
+	var sb strings.Builder
+	for _, m := range ms {
+		fmt.Fprintf(&sb, "%s:%v%v;", m.name, m.closed, m.buf)
+	}
+	return sb.String()
 }
 
 // partner returns the earliest-arrived other thread with a pending,
